@@ -31,7 +31,9 @@
 (*   rst      keypers restarted in the slot                                *)
 (*   tags     which code paths the behaviour has exercised so far          *)
 (*            (observational; part of the model checker's VIEW so that a   *)
-(*            behaviour is printed per (state, set of paths))              *)
+(*            behaviour is printed per (state, set of paths)); tags: of    *)
+(*            the current slot, atags: of the whole behaviour (not in the  *)
+(*            VIEW, printed with the behaviour)                            *)
 (*                                                                         *)
 (* X1  keypers whose synced queue and pointer state are equal request      *)
 (*     byte-identical lists for a slot (C19_Agree); a keys message is      *)
@@ -70,7 +72,8 @@ GW0 == [gh   |-> [k \in KSeq |-> GhostInit],
         an   |-> {},
         lost |-> [k \in KSeq |-> 0],
         rst  |-> {},
-        tags |-> {}]
+        tags |-> {},
+        atags |-> {}]
 
 RowOf(w, k) == w.kp[k].s.ptr[TheEon]
 QueueObs(w, k) == QueueOf(w.ch, w.kp[k].sy.stored)
@@ -145,9 +148,10 @@ GhostNextE(g, w0, a, o, prod, w1, hash) ==
                 [] a.a = "restart" -> [g EXCEPT !.gh[k] = GhostRestart(@), !.rst = @ \cup {k}]
                 [] a.a = "slot" ->
                      [g EXCEPT !.req = [x \in KSeq |-> {}], !.recs = {}, !.fin = [x \in KSeq |-> {}], !.an = {},
-                               !.lost = [x \in KSeq |-> 0], !.rst = {}]
+                               !.lost = [x \in KSeq |-> 0], !.rst = {}, !.tags = {}]
                 [] OTHER -> g
-    IN [g1 EXCEPT !.tags = @ \cup TagsOf(g, g1, w0, a, o, prod, w1)]
+        tg == TagsOf(g, g1, w0, a, o, prod, w1)
+    IN [g1 EXCEPT !.tags = @ \cup tg, !.atags = @ \cup tg]
 
 ----------------------------------------------------------------------------
 (* monitors of one observed step; g1 = ghost after the step *)
